@@ -18,13 +18,17 @@ func (p *Parser[G]) String() string {
 func productionName(typ reflect.Type) string {
 	name := typ.Name()
 	if name == "" {
-		// Anonymous types have no name of their own: derive an identifier from the type's description.
-		name = strings.Map(func(r rune) rune {
+		// Anonymous types have no name of their own: spell out the type's description as an identifier. Everything
+		// that is not a letter or a digit is written as its code point, so that different types get different names.
+		out := strings.Builder{}
+		for _, r := range typ.String() {
 			if unicode.IsLetter(r) || unicode.IsDigit(r) {
-				return r
+				out.WriteRune(r)
+			} else {
+				fmt.Fprintf(&out, "_%x_", r)
 			}
-			return -1
-		}, typ.String())
+		}
+		name = out.String()
 	}
 	return strings.ToUpper(name[:1]) + name[1:]
 }
